@@ -63,6 +63,14 @@ pub(crate) fn verify_membership<TC: Configuration>(
         curr_label = sibling_proof.label;
     }
 
+    // the root hash commits to the root node's value, not to its label: the walk must end at the root
+    if curr_label != NodeLabel::root() {
+        return Err(VerificationError::MembershipProof(format!(
+            "Membership proof for label {:?} does not end at the root",
+            proof.label
+        )));
+    }
+
     if TC::compute_root_hash_from_val(&curr_val) == root_hash {
         Ok(())
     } else {
